@@ -295,6 +295,58 @@ def check_gauged(inst, exp, alpha, *, tol=1e-9):
     return bad
 
 
+def row_gauge(inst, e):
+    """(A, b, LQ, data) -> (E A, E b, E LQ, E data) with E = diag(e): the observation y' = E y of the same x.  Its marginal
+    is E m_y, E S E; the posterior of x given y' = E data is the one TLC computed for the original instance - but the
+    innovation factor the reversal has to solve with has a condition number larger by max(e) / min(e)."""
+    out = dict(inst)
+    blocks = []
+    for b in inst["blocks"]:
+        nb = dict(b)
+        nb["A"] = [[F(v) * F(e[i]) for v in row] for i, row in enumerate(b["A"])]
+        nb["b"] = [F(v) * F(e[i]) for i, v in enumerate(b["b"])]
+        nb["LQ"] = [[F(v) * F(e[i]) for v in row] for i, row in enumerate(b["LQ"])]
+        nb["data"] = [F(v) * F(e[i]) for i, v in enumerate(b["data"])]
+        blocks.append(nb)
+    out["blocks"] = blocks
+    return out
+
+
+def check_row_gauged(inst, exp, spread=21, *, tol=1e-7):
+    """ill-conditioned but regular innovations (every other observed row scaled by 2^-spread): marginal and joint law of
+    the reversal against the exact values of the well-scaled instance"""
+    m, d = inst["m"], inst["d"]
+    if m < 2:
+        return []
+    E = {k: to_float(v) for k, v in exp["dense"].items()}
+    if not bool(E["invertible"]):
+        return []
+    e = [F(1) if i % 2 == 0 else F(1, 2**spread) for i in range(m)]
+    g = row_gauge(inst, e)
+    o = build(g)
+    c1, x, fmt = o["c1"], o["x"], o["fmt"]
+    ev = np.array([float(e[i]) for i in range(m) for _ in range(d)])
+    bad = []
+
+    def cmp_rv(name, rv, mean, cov):
+        gm, gc = mvn(rv)
+        if not close(gm, mean, tol):
+            bad.append((name + ".mean", f"relerr={maxerr(gm, mean):.3e}"))
+        if not close(gc, cov, tol):
+            bad.append((name + ".cov", f"relerr={maxerr(gc, cov):.3e}"))
+
+    tag = f"rows[2^-{spread}]"
+    for sname, solve in (("lstsq", linalg.lstsq_svd), ("solve_triu", linalg.solve_triu)):
+        obs, bw = c1.revert(x, solve_triu=solve)
+        cmp_rv(f"{tag}.revert[{sname}].backward.marginalise(observed)", bw.marginalise(obs), _emb_vec(inst, "mx"), E["P"])
+        data = fmt(_emb_vec(g, "data"), m)
+        cmp_rv(f"{tag}.revert[{sname}].backward.apply_flat(data)", bw.apply_flat(data), E["post_mean"], E["post_cov"])
+        gm, _ = mvn(obs)
+        if not close(gm, ev * np.asarray(E["marg_mean"]), tol):
+            bad.append((f"{tag}.revert[{sname}].observed.mean", f"relerr={maxerr(gm, ev * np.asarray(E['marg_mean'])):.3e}"))
+    return bad
+
+
 def _emb_vec(inst, field):
     B, d = inst["blocks"], inst["d"]
     r = len(B[0][field])
